@@ -83,3 +83,42 @@ claim(
     'interprocedural reaching definitions (def-use closure, greatest '
     'fixpoint) + per-path dominance of the membership test',
     'DESIGN.md §4 C13')
+
+claim(
+    'C11', 'other',
+    'Structural obligations of nodes.substitute / apply_simp / '
+    'introduce_variables decided on every enumerated iteration path of the '
+    'rewrite loop: a value read from the replacement map never re-enters the '
+    'work list (path-sensitive taint); parameters are never mutated in place; '
+    'a rebuilt node is kept only after comparison with the original and the '
+    'unchanged input is returned as is; every element is looked up under both '
+    'key kinds, emitted exactly once, dropped only for a None replacement; '
+    'declarations go right after the leading set-info/set-logic prefix and '
+    'only when something changed; formal->actual substitution is '
+    'simultaneous. Exit 0 = these clause-wise necessary conditions hold.',
+    'Partial: full functional correctness of the rewrite on all trees is not '
+    'decided. Trusted: CPython ast; CFG path enumeration with constant-flag '
+    'pruning in /verif/sa/cfg.py.',
+    'path-sensitive taint + per-path obligations on the CFG; effect '
+    '(mutation) analysis on parameters',
+    'DESIGN.md §4 C11')
+
+claim(
+    'C03', 'other',
+    'Decided statically: (1) bounded work per proposal - no re-scan of '
+    'replacements in substitute, every while loop of nodes/nodeio/smtlib/'
+    'mutators* matches a termination variant (work list with pop on every '
+    'path and pushes derived from the popped element, cursor with net '
+    'increment >= 1 on every path, doubling/halving, descent), recursion is '
+    'structural along every call-graph cycle; (2) one-step no-ops are guarded '
+    '(frozen table of 12 mutators, rule = dominance/data-dependence of a '
+    'comparison between node and candidate, def-use closure for candidate '
+    'filters); (3) strategy fixed-point loops exit on no-progress, '
+    'granularity halves, a ddmin round never returns to an earlier subset. '
+    'NOT decided: absence of multi-step cycles between mutators - no ranking '
+    'function is known, no static rule can check it.',
+    'Partial by design (see text). Trusted: CPython ast, /verif/sa CFG, path '
+    'enumeration, reaching definitions.',
+    'loop-variant recognition per CFG path; call-graph SCCs with structural-'
+    'argument labels; dominance of guard facts at emission sites',
+    'DESIGN.md §4 C03')
